@@ -86,6 +86,9 @@ func c18Setup(composite bool) *c18World {
 		return r
 	}
 	d.rows = []aRow{mk("row1", 10), mk("row2", 20)}
+	if vrt.Param("rows", 2) >= 3 {
+		d.rows = append(d.rows, mk("row3", 50))
+	}
 	datasource.RegisterTableCache(types.DBTypeMySQL, aMetaCache{aTableMeta(d)})
 	w := &c18World{d: d, lockable: true}
 	vrt.Redirect((*getty.GettyRemotingClient).SendSyncRequest, func(_ *getty.GettyRemotingClient, msg interface{}) (interface{}, error) {
